@@ -715,3 +715,6 @@ package helper
 //@ requires[C01] n >= 0 && (forall k :: 0 <= k && k <= n ==> r[k] == (k == 0 ? 0 : r[k-1]) + a[k])
 //@ ensures[C01] r[n] == psum(a, n + 1)
 //@ induction n
+// window sum over P values starting at k; pointwise square
+//@ stream winS(a stream, P int)[k] = psum(a, k + P) - psum(a, k)
+//@ stream sqS(a stream)[j] = a[j] * a[j]
